@@ -235,3 +235,367 @@ theorem runEvs_frame (s : Sys F) (evs : List Ev) (h : ∀ e ∈ evs, notHk e = t
     exact pw_trans (step_frame s e (h e (by simp))) (ih _ (fun e' he' => h e' (by simp [he'])))
 
 end Srtla.KaTrace
+
+/-! ## Appended (round 2): conn ids stay in place under EVERY event; stamps vs. the clock; wire history -/
+namespace Srtla.KaTrace
+open Srtla Srtla.Gen Srtla.Conn Srtla.Link Srtla.Sys Srtla.Rtt Srtla.Uplink Srtla.Keepalive
+
+variable {F : Type} [Scalar F]
+
+/-- The link keeps its connection id. -/
+def IdFrame (l l' : FLink F) : Prop := l'.core.connId = l.core.connId
+
+omit [Scalar F] in
+theorem IdFrame.trans {a b c : FLink F} (h₁ : IdFrame a b) (h₂ : IdFrame b c) : IdFrame a c := by
+  unfold IdFrame at *; rw [h₂, h₁]
+
+omit [Scalar F] in
+theorem id_trans {l₁ l₂ l₃ : List (FLink F)} (h₁ : PW IdFrame l₁ l₂) (h₂ : PW IdFrame l₂ l₃) :
+    PW IdFrame l₁ l₃ := PW.trans h₁ h₂ (fun _ _ _ => IdFrame.trans)
+
+omit [Scalar F] in
+theorem IdFrame.rfl' (l : FLink F) : IdFrame l l := rfl
+
+omit [Scalar F] in
+theorem id_refl (ls : List (FLink F)) : PW IdFrame ls ls := PW.refl IdFrame.rfl' ls
+
+omit [Scalar F] in
+theorem id_setAt (ls : List (FLink F)) (i : Nat) (l x : FLink F) (hl : ls[i]? = some l)
+    (h : IdFrame l x) : PW IdFrame ls (setAt ls i x) := by
+  refine ⟨by simp [setAt], ?_⟩
+  intro j a b ha hb
+  rw [getElem?_setAt, ha] at hb
+  split at hb
+  · rename_i hj; subst hj
+    rw [hl] at ha; cases ha
+    simp at hb; subst hb; exact h
+  · cases hb; exact rfl
+
+theorem foldl_register_connId (q : List QItem) (c : Conn) :
+    (q.foldl (fun c (it : QItem) =>
+      match it.2.1 with
+      | some s => c.register (toI32 s) it.2.2
+      | none => c) c).connId = c.connId := by
+  induction q generalizing c with
+  | nil => rfl
+  | cons it rest ih =>
+    simp only [List.foldl_cons]
+    rw [ih]
+    split <;> rfl
+
+omit [Scalar F] in
+theorem scb_connId (l : FLink F) (now : Nat) (fn : List Nat) :
+    (sendConnectionBatch l now fn).1.core.connId = l.core.connId := by
+  have hq := foldl_register_connId l.queue l.core
+  unfold sendConnectionBatch FLink.takeBatch
+  dsimp only
+  split <;> (try split) <;> (try split) <;> first | rfl | exact hq
+
+omit [Scalar F] in
+theorem mfr_connId (l : FLink F) : l.markForRecovery.core.connId = l.core.connId := rfl
+
+omit [Scalar F] in
+theorem forwardVia_id (s : Sys F) (sel : Nat) (pkt : Sys.Bytes) (seq : Option Nat) (now : Nat) :
+    PW IdFrame s.links (forwardVia s sel pkt seq now).1.links := by
+  unfold forwardVia
+  split
+  · exact id_refl _
+  · rename_i l hl
+    dsimp only
+    split
+    · dsimp only
+      apply id_setAt s.links sel l _ hl
+      unfold IdFrame
+      split
+      · exact scb_connId _ now _
+      · rw [mfr_connId]; exact scb_connId _ now _
+    · exact id_setAt s.links sel l _ hl rfl
+
+omit [Scalar F] in
+theorem stallProbesGo_id (pkt : Sys.Bytes) (seq : Option Nat) (now sel : Nat) (ls : List (FLink F))
+    (i : Nat) (fn : List Nat) : PW IdFrame ls (stallProbesGo pkt seq now sel ls i fn).1 := by
+  induction ls generalizing i fn with
+  | nil => simp [stallProbesGo]; exact PW.nil
+  | cons l rest ih =>
+    unfold stallProbesGo
+    split
+    · exact PW.cons rfl (ih _ _)
+    · dsimp only
+      have hd : l.stallProbeDue.1.core.connId = l.core.connId := by
+        unfold FLink.stallProbeDue; dsimp only; split <;> rfl
+      split
+      · exact PW.cons hd (ih _ _)
+      · split
+        · dsimp only
+          refine PW.cons ?_ (ih _ _)
+          unfold IdFrame
+          split
+          · rw [scb_connId]; exact hd
+          · rw [mfr_connId, scb_connId]; exact hd
+        · exact PW.cons hd (ih _ _)
+
+/-- A selection pass keeps every link's accounting core, queue, RTT state and cadence clock. -/
+theorem runSelect_core (s : Sys F) (now : Nat) :
+    PW (fun (a b : FLink F) => b.core = a.core ∧ b.queue = a.queue ∧ b.rtt = a.rtt ∧
+      b.lastKeepaliveSent = a.lastKeepaliveSent) s.links (runSelect s now).1.links := by
+  unfold runSelect
+  dsimp only
+  obtain ⟨g, hg, -⟩ := Select.selectIdx_map (s.links.map FLink.toSLink) s.lastSelected now s.cfg
+  rw [hg]
+  refine ⟨by simp, ?_⟩
+  intro j a b ha hb
+  rw [List.getElem?_map] at hb
+  cases hz : (s.links.zip ((s.links.map FLink.toSLink).map g))[j]? with
+  | none => rw [hz] at hb; simp at hb
+  | some p =>
+    rw [hz] at hb
+    simp only [Option.map_some, Option.some.injEq] at hb
+    obtain ⟨h1, -⟩ := List.getElem?_zip_eq_some.mp hz
+    rw [ha] at h1; cases h1
+    subst hb
+    exact ⟨rfl, rfl, rfl, rfl⟩
+
+theorem runSelect_id (s : Sys F) (now : Nat) : PW IdFrame s.links (runSelect s now).1.links :=
+  (runSelect_core s now).mono (fun a b h => by unfold IdFrame; rw [h.1])
+
+theorem handleSrtPacket_id (s : Sys F) (pkt : Sys.Bytes) (now : Nat) :
+    PW IdFrame s.links (handleSrtPacket s pkt now).1.links := by
+  unfold handleSrtPacket
+  split
+  · exact id_refl _
+  · dsimp only
+    split
+    · split
+      · exact forwardVia_id s _ pkt _ now
+      · exact id_refl _
+    · have hr := runSelect_id s now
+      split
+      · rename_i i hi
+        have hf := forwardVia_id (runSelect s now).1 i pkt (Codec.getSrtSequenceNumberS pkt) now
+        split
+        · dsimp only
+          exact id_trans hr (id_trans hf (stallProbesGo_id pkt _ now i _ 0 _))
+        · exact id_trans hr hf
+      · exact hr
+
+omit [Scalar F] in
+theorem flushGo_id (now : Nat) (ls : List (FLink F)) (fn : List Nat) :
+    PW IdFrame ls (flushGo now ls fn).1 := by
+  induction ls generalizing fn with
+  | nil => simp [flushGo]; exact PW.nil
+  | cons l rest ih =>
+    unfold flushGo
+    split
+    · dsimp only
+      exact PW.cons (scb_connId l now fn) (ih _)
+    · exact PW.cons rfl (ih _)
+
+omit [Scalar F] in
+theorem flushAllBatches_id (s : Sys F) (now : Nat) :
+    PW IdFrame s.links (flushAllBatches s now).1.links := by
+  unfold flushAllBatches
+  split
+  · exact id_refl _
+  · exact flushGo_id now s.links s.failNext
+
+theorem arrival_id (l : FLink F) (idx : Nat) (reg : Reg.Reg) (ck : Bool) (data : Codec.Bytes) (now : Nat) :
+    IdFrame l (arrival l idx reg ck data now) := by
+  cases hpt : Codec.getPacketTypeS data with
+  | none =>
+    have : arrival l idx reg ck data now = l := by
+      unfold arrival; rw [pupSpec_none l idx reg ck data now hpt]
+    rw [this]; exact rfl
+  | some pt =>
+    rcases arrival_cases l idx reg ck data now pt hpt with
+      ⟨-, h | h⟩ | ⟨-, h⟩ | ⟨-, h⟩ | ⟨-, h⟩ | ⟨-, h⟩ | ⟨-, -, -, -, -, h⟩ <;> rw [h]
+    · exact rfl
+    · exact rfl
+    · exact rfl
+    · exact rfl
+    · exact rfl
+    · exact (kaLink_spec l data now).2.2.1
+    · exact rfl
+
+theorem handleUplinkPacket_id (s : Sys F) (cid : Nat) (data : Codec.Bytes) (now : Nat) :
+    PW IdFrame s.links (handleUplinkPacket s cid data now).1.links := by
+  refine ⟨(handleUplinkPacket_length s cid data now).symm, ?_⟩
+  intro j a b ha hb
+  by_cases hne : data = []
+  · subst hne
+    have : (handleUplinkPacket s cid [] now).1 = s := by simp [handleUplinkPacket]
+    rw [this, ha] at hb; cases hb; exact rfl
+  cases hf : s.links.findIdx? (·.core.connId == cid) with
+  | none =>
+    rw [unknown_link s cid data now hf, ha] at hb; cases hb; exact rfl
+  | some idx =>
+    obtain ⟨l, hl, -⟩ := findIdx_get s.links cid idx hf
+    obtain ⟨b', hb', hev⟩ := handleUplinkPacket_link s cid data now idx l hne hf hl j a ha
+    rw [hb] at hb'; cases hb'
+    unfold IdFrame
+    rw [hev.core.connId]
+    split
+    · rename_i hj; subst hj
+      rw [hl] at ha; cases ha
+      exact arrival_id a j s.reg s.clientKnown data now
+    · rfl
+
+/-- **Every event keeps every link in place with its conn id** (no uniqueness assumption). -/
+theorem step_id (s : Sys F) (e : Ev) : PW IdFrame s.links (step s e).1.links := by
+  cases e with
+  | client now pkt => exact handleSrtPacket_id s pkt now
+  | uplink now cid data => exact handleUplinkPacket_id s cid data now
+  | flush now => exact flushAllBatches_id s now
+  | hk now =>
+    obtain ⟨h1, h2, -, -⟩ := handleHousekeeping_spec s now
+    refine ⟨h1.symm, ?_⟩
+    intro j a b ha hb
+    obtain ⟨l', hl', hk⟩ := h2 j a ha
+    have hb' : (handleHousekeeping s now).1.links[j]? = some b := hb
+    rw [hl'] at hb'; cases hb'
+    exact hk.connId
+  | setCfg cfg => exact id_refl _
+  | crit d => exact id_refl _
+  | failNext cid => exact id_refl _
+
+theorem runEvs_id (s : Sys F) (evs : List Ev) : PW IdFrame s.links (runEvs s evs).links := by
+  unfold runEvs
+  induction evs generalizing s with
+  | nil => exact id_refl _
+  | cons e es ih =>
+    simp only [List.foldl_cons]
+    exact id_trans (step_id s e) (ih _)
+
+end Srtla.KaTrace
+
+namespace Srtla.KaTrace
+open Srtla Srtla.Gen Srtla.Conn Srtla.Link Srtla.Sys Srtla.Rtt Srtla.Uplink Srtla.Keepalive
+
+variable {F : Type} [Scalar F]
+
+/-! ### Stamps never run ahead of the housekeeping clock -/
+
+/-- Every cadence clock of the shell is at most `T`. -/
+def StampLe (T : Nat) (s : Sys F) : Prop :=
+  ∀ l ∈ s.links, ∀ k, l.lastKeepaliveSent = some k → k ≤ T
+
+omit [Scalar F] in
+theorem StampLe.mono {T T' : Nat} {s : Sys F} (h : StampLe T s) (hT : T ≤ T') : StampLe T' s :=
+  fun l hl k hk => Nat.le_trans (h l hl k hk) hT
+
+omit [Scalar F] in
+theorem stampLe_fresh (T : Nat) (s : Sys F) (h : ∀ l ∈ s.links, l.lastKeepaliveSent = none) :
+    StampLe T s := fun l hl k hk => by rw [h l hl] at hk; cases hk
+
+/-- What one event does to one cadence clock: kept, cleared, or — housekeeping at `now` only — set to
+`now` with the link's frame on that tick's wire. -/
+theorem step_lks (s : Sys F) (e : Ev) (j : Nat) (l l' : FLink F) (hl : s.links[j]? = some l)
+    (hl' : (step s e).1.links[j]? = some l') :
+    l'.core.connId = l.core.connId ∧
+    (l'.lastKeepaliveSent = l.lastKeepaliveSent ∨ l'.lastKeepaliveSent = none ∨
+      ∃ now, e = .hk now ∧ l'.lastKeepaliveSent = some now ∧
+        (l.core.connId, (l.keepalivePacket now).2) ∈ (step s e).2.wire) := by
+  refine ⟨(step_id s e).2 j l l' hl hl', ?_⟩
+  by_cases hh : notHk e = true
+  · rcases (step_frame s e hh).2 j l l' hl hl' with h | h
+    · exact Or.inl h
+    · exact Or.inr (Or.inl h)
+  · cases e with
+    | hk now =>
+      obtain ⟨-, h2, -, -⟩ := handleHousekeeping_spec s now
+      obtain ⟨m, hm, hk⟩ := h2 j l hl
+      have hl'' : (handleHousekeeping s now).1.links[j]? = some l' := hl'
+      rw [hm] at hl''; cases hl''
+      rcases hk.change with h | ⟨h, hw⟩
+      · exact Or.inl h
+      · exact Or.inr (Or.inr ⟨now, rfl, h, hw⟩)
+    | _ => simp [notHk] at hh
+
+theorem stampLe_step (T : Nat) (s : Sys F) (e : Ev) (h : StampLe T s) (ht : ∀ t, e = .hk t → t ≤ T) :
+    StampLe T (step s e).1 := by
+  intro l' hl' k hk
+  obtain ⟨j, hj⟩ := List.getElem?_of_mem hl'
+  obtain ⟨l, hl, -⟩ := (step_id s e).get' hj
+  rcases (step_lks s e j l l' hl hj).2 with h1 | h1 | ⟨now, he, h1, -⟩
+  · exact h l (List.mem_of_getElem? hl) k (h1 ▸ hk)
+  · rw [h1] at hk; cases hk
+  · rw [h1] at hk; cases hk; exact ht _ he
+
+/-- **Monotone clock ⇒ stamps are in the past.**  If every housekeeping tick of the run happened at a
+time `≤ T`, then after the run every cadence clock is `≤ T`. -/
+theorem stampLe_run (T : Nat) (s : Sys F) (evs : List Ev) (h : StampLe T s)
+    (ht : ∀ e ∈ evs, ∀ t, e = .hk t → t ≤ T) : StampLe T (runEvs s evs) := by
+  unfold runEvs
+  induction evs generalizing s with
+  | nil => exact h
+  | cons e es ih =>
+    simp only [List.foldl_cons]
+    exact ih _ (stampLe_step T s e h (ht e (by simp))) (fun e' he' => ht e' (by simp [he']))
+
+/-! ### The wire history of a run -/
+
+/-- The clock value an event read (configuration events read none and emit nothing). -/
+def evNow : Ev → Nat
+  | .client now _ => now
+  | .uplink now _ _ => now
+  | .flush now => now
+  | .hk now => now
+  | _ => 0
+
+/-- Everything one event put on uplink sockets, tagged with the event's clock: `(time, conn id, bytes)`. -/
+def evWire (s : Sys F) (e : Ev) : List (Nat × Nat × Codec.Bytes) :=
+  (step s e).2.wire.map fun x => (evNow e, x.1, x.2)
+
+/-- The wire history of a run, in order. -/
+def wireTrace (s : Sys F) : List Ev → List (Nat × Nat × Codec.Bytes)
+  | [] => []
+  | e :: es => evWire s e ++ wireTrace (step s e).1 es
+
+theorem runEvs_cons (s : Sys F) (e : Ev) (es : List Ev) : runEvs s (e :: es) = runEvs (step s e).1 es := rfl
+
+theorem runEvs_append (s : Sys F) (a b : List Ev) : runEvs s (a ++ b) = runEvs (runEvs s a) b := by
+  simp [runEvs, List.foldl_append]
+
+theorem wireTrace_append (s : Sys F) (a b : List Ev) :
+    wireTrace s (a ++ b) = wireTrace s a ++ wireTrace (runEvs s a) b := by
+  induction a generalizing s with
+  | nil => rfl
+  | cons e es ih =>
+    simp only [List.cons_append, wireTrace, runEvs_cons, ih, List.append_assoc]
+
+/-- Every cadence-clock value is the time of a keepalive frame in the wire history: a frame built by
+`keepalive_packet(k)` from a state of that very link (same conn id), sent under its conn id. -/
+def Witnessed (tr : List (Nat × Nat × Codec.Bytes)) (s : Sys F) : Prop :=
+  ∀ (j : Nat) (l : FLink F) (k : Nat), s.links[j]? = some l → l.lastKeepaliveSent = some k →
+    ∃ m : FLink F, m.core.connId = l.core.connId ∧ (k, l.core.connId, (m.keepalivePacket k).2) ∈ tr
+
+theorem witnessed_fresh (s : Sys F) (h : ∀ l ∈ s.links, l.lastKeepaliveSent = none) :
+    Witnessed ([] : List (Nat × Nat × Codec.Bytes)) s := by
+  intro j l k hl hk
+  rw [h l (List.mem_of_getElem? hl)] at hk; cases hk
+
+theorem witnessed_step (tr : List (Nat × Nat × Codec.Bytes)) (s : Sys F) (e : Ev) (h : Witnessed tr s) :
+    Witnessed (tr ++ evWire s e) (step s e).1 := by
+  intro j l' k hl' hk
+  obtain ⟨l, hl, -⟩ := (step_id s e).get' hl'
+  obtain ⟨hid, hch⟩ := step_lks s e j l l' hl hl'
+  rcases hch with h1 | h1 | ⟨now, he, h1, hw⟩
+  · obtain ⟨m, hm, hin⟩ := h j l k hl (h1 ▸ hk)
+    exact ⟨m, hm.trans hid.symm, List.mem_append_left _ (hid ▸ hin)⟩
+  · rw [h1] at hk; cases hk
+  · rw [h1] at hk; cases hk
+    refine ⟨l, hid.symm, List.mem_append_right _ ?_⟩
+    subst he
+    simp only [evWire, evNow, List.mem_map]
+    exact ⟨_, hw, by rw [hid]⟩
+
+/-- **Every stamp has its frame on the wire** — for every run from a state without stamps (start-up:
+`FLink.newRegistering`), whatever the events. -/
+theorem witnessed_run (tr : List (Nat × Nat × Codec.Bytes)) (s : Sys F) (evs : List Ev)
+    (h : Witnessed tr s) : Witnessed (tr ++ wireTrace s evs) (runEvs s evs) := by
+  induction evs generalizing s tr with
+  | nil => simpa [wireTrace, runEvs] using h
+  | cons e es ih =>
+    have := ih (tr ++ evWire s e) (step s e).1 (witnessed_step tr s e h)
+    simpa [wireTrace, runEvs_cons, List.append_assoc] using this
+
+end Srtla.KaTrace
